@@ -122,12 +122,8 @@ def dark_model_stage(col, root, b0, behs, names, seed):
             obs = fw.project_info(w.fit(fw.make_source(b['src'])))
             col.replayed += 1
             bad = fw.compare_fit(obs, names2, rows2, check_rank=True, check_pred=True)
-            if not bad:
-                k = obs['names'].index('zz_dark')
-                if np.isfinite(obs['chi2'][k]) and obs['chi2'][k] < 1e30:
-                    bad = ['the model with zero flux in fitted band %d has chi2 %r' % (band, obs['chi2'][k])]
-                elif k != len(names2) - 1 and not all((not np.isfinite(c)) or c >= 1e30 for c in obs['chi2'][k:]):
-                    bad = ['a model with non-finite chi2 is ranked %d of %d, before finite ones' % (k + 1, len(names2))]
+            # (what chi^2 the dark model itself gets is not C04's business; compare_fit has checked that every model is listed once
+            # under its own package index, that chi^2 is non-decreasing with NaN last, and every spec row by name)
             if bad:
                 col.violation('C04:dark_model', 'package with a dark model at index %d (zero flux in band %d): %s' % (pos, band, '; '.join(bad[:4])),
                               dict(describe(b), dark_index=pos, dark_band=band, observed=obs))
